@@ -1,7 +1,7 @@
 """C15 — FRI completeness: clean/dirty typestate of FriProver (engine E2 must-pass), the remainder
 commitment's exemption from the divisibility requirement, and prover/verifier agreement on layer count and
 position folding (sibling cross-check)."""
-from ..cfg import T, S, must_between, trace_cond, reach, guards as local_guards
+from ..cfg import single_def, T, S, must_between, trace_cond, reach, guards as local_guards
 from ..flow import flow
 from ..guards import accept_nodes
 from ..ir import Program, callee_name, AnchorError, op_local
@@ -167,6 +167,53 @@ def remainder_exemption(ck, prog):
     ck.ob("X", "FriVerifier::new:remainder-exempt", ok,
           "FriVerifier::new applies the divisibility requirement to every commitment but the last (the remainder is never folded)",
           loc=fv.loc(lg[0].block, "T"))
+    # ... and it examines the degree bound of THIS layer: the bound is divided by the folding factor only after it was examined; a division
+    # that reaches the remainder test without passing the head of the loop makes the test look at the next layer's bound (for the last
+    # folded layer: at the remainder, which the exemption above was meant to spare)
+    rems = [(b, i, st) for b, i, st in fv.assigns() if st["rv"]["k"] == "bin" and st["rv"]["op"] == "Rem"]
+    heads = [b for b, t in fv.calls() if (callee_name(t) or "").endswith("Iterator::next")]
+    order_ok, decided = True, False
+    for x in lg:
+        c = trace_cond(fv, fv.term(x.block)["d"])
+        cw = g.walk(ops=[fv.term(x.block)["d"]], at=(x.block, T), through=lambda tt: False)
+        if ("b", "Rem") not in cw:
+            continue
+        for rb, ri, rst in rems:
+            root = op_local(rst["rv"]["a"], pure=True)
+            for _ in range(6):
+                d = single_def(fv, root) if root is not None and not fv.local_name(root) else None
+                if d is None or d[1] == "T" or d[2]["rv"]["k"] != "use":
+                    break
+                root = op_local(d[2]["rv"]["a"], pure=True)
+            if root is None or not heads:
+                continue
+            for db, di, dst in fv.assigns():
+                rv = dst["rv"]
+                if rv["k"] != "bin" or rv["op"] != "Div":
+                    continue
+                # the quotient is stored back into the examined variable
+                tgt = dst["lhs"]["l"]
+                back = tgt == root or any(s2["rv"]["k"] == "use" and op_local(s2["rv"]["a"], pure=True) == tgt and s2["lhs"]["l"] == root
+                                          for _, _, s2 in fv.assigns())
+                src = op_local(rv["a"], pure=True)
+                for _ in range(6):
+                    d = single_def(fv, src) if src is not None and not fv.local_name(src) else None
+                    if d is None or d[1] == "T" or d[2]["rv"]["k"] != "use":
+                        break
+                    src = op_local(d[2]["rv"]["a"], pure=True)
+                if not back or src != root:
+                    continue
+                decided = True
+                r = reach(fv, [(db, T)], avoid=frozenset([(h, S) for h in heads] + [(h, T) for h in heads]), include_starts=False)
+                same_block_later = db == rb and ri > di
+                if (rb, S) in r or same_block_later:
+                    order_ok = False
+    if decided:
+        ck.ob("X", "FriVerifier::new:bound-examined-before-division", order_ok,
+              "FriVerifier::new tests the divisibility of the degree bound of the current layer: the division by the folding factor follows the test "
+              "within an iteration", loc=fv.loc(lg[0].block, "T"))
+    else:
+        ck.note("X: the order of the divisibility test and the division of the degree bound in FriVerifier::new is not of a recognised shape; not decided")
 
 
 def agreement(ck, prog):
